@@ -592,6 +592,24 @@ def correspondence(ctx):
             ev += 1
             if r.returncode == 0:
                 ctx.violation("output could not be written (device full) but the exit status is 0: zstd %s > /dev/full" % " ".join(args), dict(kind="monitor", invocation=args))
+        # ---- the same on a regular file: a file-size limit makes write() fail in the middle of the output (EFBIG, the signal ignored); the failed
+        #      operation must exit non-zero, keep the source, and leave no output file behind
+        import resource, signal
+        open(os.path.join(d, "big.dat"), "wb").write(bytes(rng.getrandbits(8) for _ in range(1 << 20)) * 3)
+        subprocess.run([exe, "-q", "big.dat", "-o", "ok.zst"], cwd=d, stdout=subprocess.DEVNULL, stderr=subprocess.DEVNULL)
+        def limited():
+            signal.signal(signal.SIGXFSZ, signal.SIG_IGN); resource.setrlimit(resource.RLIMIT_FSIZE, (1 << 20, 1 << 20))
+        for args, outn, srcn in ((["-q", "big.dat", "-o", "big.zst"], "big.zst", "big.dat"), (["-q", "-d", "ok.zst", "-o", "regen.dat"], "regen.dat", "ok.zst")):
+            r = subprocess.run([exe] + args, cwd=d, stdout=subprocess.DEVNULL, stderr=subprocess.PIPE, preexec_fn=limited)
+            ev += 1
+            if r.returncode == 0:
+                ctx.violation("output could not be written (file size limit) but the exit status is 0: zstd %s" % " ".join(args), dict(kind="monitor", invocation=args))
+            if not os.path.exists(os.path.join(d, srcn)):
+                ctx.violation("source removed although the output could not be written: zstd %s" % " ".join(args), dict(kind="monitor", invocation=args))
+            if os.path.exists(os.path.join(d, outn)):
+                ctx.violation("a failed operation (write error: file size limit of 1 MiB) left its partial output '%s' (%d bytes) behind: zstd %s | %s" % (
+                    outn, os.path.getsize(os.path.join(d, outn)), " ".join(args), r.stderr.decode(errors="replace")[-160:]), dict(kind="monitor", invocation=args, rlimit_fsize=1 << 20),
+                    key="C19-write-error-leaves-partial-output")
         shutil.rmtree(d, ignore_errors=True)
         # ---------------- (3) kill points ----------------
         kills = 0
